@@ -178,3 +178,37 @@ Proof.
   split; [apply cl_hom_fwd|]. intros H. destruct (cl_hom_bwd G (f p) H) as [p' [E Hp']]. apply f_inj in E. subst. exact Hp'.
 Qed.
 End Hom.
+
+
+(* the same with a domain: the map only needs to be a homomorphism on a set closed under the product *)
+Section HomD.
+Variables (P Q : Type) (mulP : P -> P -> P) (antiP : P -> P -> bool) (mulQ : Q -> Q -> Q) (antiQ : Q -> Q -> bool).
+Variable f : P -> Q.
+Variable D : P -> Prop.
+Hypothesis D_mul : forall a b, D a -> D b -> D (mulP a b).
+Hypothesis f_mul : forall a b, D a -> D b -> f (mulP a b) = mulQ (f a) (f b).
+Hypothesis f_anti : forall a b, D a -> D b -> antiQ (f a) (f b) = antiP a b.
+Hypothesis f_inj : forall a b, D a -> D b -> f a = f b -> a = b.
+Variable G : P -> Prop.
+Hypothesis G_D : forall g, G g -> D g.
+Lemma clD p : Cl P mulP antiP G p -> D p.
+Proof. induction 1; auto. Qed.
+Theorem cl_homD_fwd p : Cl P mulP antiP G p -> Cl Q mulQ antiQ (fun q => exists g, G g /\ q = f g) (f p).
+Proof.
+  induction 1 as [g Hg|a b Ha IHa Hb IHb Hab]; [constructor; eauto|].
+  rewrite f_mul by (eapply clD; eauto). apply cl_br; [exact IHa|exact IHb|]. rewrite f_anti by (eapply clD; eauto). exact Hab.
+Qed.
+Theorem cl_homD_bwd q : Cl Q mulQ antiQ (fun q => exists g, G g /\ q = f g) q ->
+  exists p, q = f p /\ Cl P mulP antiP G p.
+Proof.
+  induction 1 as [q [g [Hg ->]]|a b _ [pa [-> Ha]] _ [pb [-> Hb]] Hab].
+  - exists g. split; [reflexivity|constructor; exact Hg].
+  - exists (mulP pa pb). split; [symmetry; apply f_mul; eapply clD; eauto|].
+    apply cl_br; [exact Ha|exact Hb|]. rewrite <- f_anti by (eapply clD; eauto). exact Hab.
+Qed.
+Theorem cl_homD p : D p -> (Cl P mulP antiP G p <-> Cl Q mulQ antiQ (fun q => exists g, G g /\ q = f g) (f p)).
+Proof.
+  intros Dp. split; [apply cl_homD_fwd|]. intros H. destruct (cl_homD_bwd (f p) H) as [p' [E Hp']].
+  apply f_inj in E; [subst; exact Hp'|exact Dp|eapply clD; eauto].
+Qed.
+End HomD.
